@@ -210,7 +210,9 @@ Section Hash.
         end
     end.
 
-  Definition decode_node (buf : list N) : dres node := decode_node_f 8 buf.
+  (* an embedded node is < 32 bytes and every nesting level costs at least 2 bytes,
+     so 34 levels are never exhausted (proved in Trie/ProofProofs.v) *)
+  Definition decode_node (buf : list N) : dres node := decode_node_f 34 buf.
 End Hash.
 
 Arguments DOk {A} a.
